@@ -21,6 +21,7 @@ import DS.Gen.Handlers
 import DS.Model.Lattice
 import DS.Model.Expand
 import DS.Model.CifRow
+import DS.Model.Rx
 /-!
 Line-protocol driver: one operation per input line, one canonical result line per operation.
 Used by the correspondence checks (harness/*.py).  No Mathlib import anywhere below this file.
@@ -299,6 +300,7 @@ def handlers : List (List String → Option String) :=
   , DS.CifNum.cifnumHandle
   , DS.Column.columnHandle
   , DS.CifRow.cifrowHandle
+  , DS.Rx.rxHandle
   ]
 
 def handle (ws : List String) : String :=
